@@ -37,6 +37,9 @@ HEALTHY = {
 # healthy servers whose single-target status is "warning" / "good" (every archetype above ends in "failure"): used where the rank of the statuses matters
 OTHER_STATUS = {
     'warn-only': dict(banner='SSH-2.0-OpenSSH_9.9', kex=['curve25519-sha256', MARK], key=['ssh-ed25519'], enc=['aes128-ctr'], mac=['hmac-sha2-256']),
+    # two servers whose identification lines differ only in a character that is shown replaced: 'build?7' as sent, and 'build<0xe9>7' shown as 'build?7' and flagged
+    'twin-plain': dict(banner='SSH-2.0-OpenSSH_9.9 build?7', kex=['curve25519-sha256', MARK], key=['ssh-ed25519'], enc=['aes128-ctr'], mac=['hmac-sha2-256']),
+    'twin-nonascii': dict(banner='SSH-2.0-OpenSSH_9.9 build\udce97', kex=['curve25519-sha256', MARK], key=['ssh-ed25519'], enc=['aes128-ctr'], mac=['hmac-sha2-256']),
     'good-only': dict(banner='SSH-2.0-OpenSSH_9.9', kex=['sntrup761x25519-sha512@openssh.com', MARK], key=['ssh-ed25519'], enc=['aes256-gcm@openssh.com'], mac=['hmac-sha2-256-etm@openssh.com']),
 }
 
